@@ -4,6 +4,7 @@ import JominiModel.Proofs.SwarReader
 import JominiModel.Proofs.TextReader
 import JominiModel.Proofs.TextReaderStream
 import JominiModel.Proofs.TextReaderFast
+import JominiModel.Proofs.TextFault
 import JominiModel.Generated.Tables
 /-
 C07 — the streaming text reader is independent of read chunking and buffer size.
@@ -161,28 +162,31 @@ theorem C07_start_related (cap : Nat) (sched : List Step) (data : Bytes) (hcap :
   · exact ⟨rfl, rfl, by simp [fromSlice], by intro x hx; simp [fromSlice] at hx, fun _ => rfl⟩
 
 /-- **C07 with the fast path out of play, every capacity.**  For every input, every fault-free read schedule (any
-sizes ≥ 1, `repeat`, unlimited) and every buffer capacity ≥ 1: either the streamed run ends in `BufferFull`, having
-produced a prefix of the from-slice token sequence (and the capacity is at most the input length), or the streamed token
+sizes ≥ 1, `repeat`, unlimited; fault steps are allowed and then show up as the I/O-error alternative) and every buffer
+capacity ≥ 1: either the streamed run stops with `BufferFull` (then the capacity is at most the input length) or an I/O
+error, having produced a prefix of the from-slice token sequence, or the streamed token
 sequence equals the from-slice token sequence, the terminal outcome is the same, and at a clean end the final position
 of both readers is the input length. -/
 theorem C07_fallback_schedule_independent (data : Bytes) (cap : Nat) (sched : List Step)
     (hcap : 0 < cap) (hw : WfSched sched) :
     let s := lexFb (fuelFor data + 2 * sched.length) (fuelFor data) (fromReader cap sched data) []
     let l := lexFb (fuelFor data) (fuelFor data) (fromSlice data) []
-    (s.out = .err .full ∧ s.toks <+: l.toks ∧ cap ≤ data.length) ∨
+    (StopErr s.out ∧ s.toks <+: l.toks ∧ (s.out = .err .full → cap ≤ data.length)) ∨
     (s.toks = l.toks ∧ s.out = l.out ∧
       (s.out = .end_ → s.final.position = data.length ∧ l.final.position = data.length)) := by
   intro s l
   obtain ⟨h1, h2⟩ := C07_start_related cap sched data hcap hw
   have := lexFb_vs_slice (fuelFor data) _ _ 0 .unknown data (fuelFor data + 2 * sched.length) (fuelFor data) [] h1 h2 rfl
     (by simp [fuelFor]; omega) (by simp [fuelFor])
-  rcases this with ⟨a, b, _, c⟩ | this
+  rcases this with ⟨a, b, c⟩ | this
   · left; exact ⟨a, b, c⟩
   · right; simpa using this
 
 -- the hypotheses are satisfiable: a 1-byte-at-a-time schedule followed by unlimited reads, buffer of 64 bytes
-example : WfSched [.give 1, .give 1, .give 3, .repeat_ 2] := by
-  intro x hx; simp at hx; rcases hx with rfl | rfl | rfl | rfl <;> simp [WfStep]
+example : WfSched [.give 1, .give 1, .give 3, .repeat_ 2] ∧ NoFaults [.give 1, .give 1, .give 3, .repeat_ 2] := by
+  constructor
+  · intro x hx; simp at hx; rcases hx with rfl | rfl | rfl | rfl <;> simp [WfStep]
+  · intro x hx; simp at hx; rcases hx with rfl | rfl | rfl | rfl <;> simp
 example : (lexFb 100 40 (fromReader 64 [.give 1, .give 1, .give 3, .repeat_ 2]
     [97, 61, 34, 98, 92, 34, 34, 32, 35, 99]) []).toks = [.unquoted [97], .op .eq, .quoted [98, 92, 34]] := by
   decide +kernel
@@ -235,7 +239,7 @@ example : (match nextOptFallback 5 (fromSlice [97, 98, 32, 99, 100, 101, 102, 10
     | .ok r' (some t) => (t, r'.consumed) | _ => (.open_, 0)) = (.unquoted [97, 98], 2) := by decide +kernel
 
 /-- **C07, the whole reader (fast path in play), every schedule, every capacity.**  For every input, every fault-free
-read schedule and every buffer capacity ≥ 1, the streaming reader (`streamTokens`: `next` until it stops) either
+read schedule (`WfSched`: read sizes ≥ 1; `NoFaults`) and every buffer capacity ≥ 1, the streaming reader (`streamTokens`: `next` until it stops) either
 
 * ends in `BufferFull` — an error, never a clean end — having produced a PREFIX of the from-slice reader's token
   sequence (no token dropped, split or altered), and then the capacity is at most the input length; or
@@ -244,7 +248,8 @@ read schedule and every buffer capacity ≥ 1, the streaming reader (`streamToke
 
 This is the statement of C07 and of its last sentence (`C07_overflow_is_error`) except for the liveness half
 "`BufferFull` occurs only if some token/comment does not fit" (see the end of this file). -/
-theorem C07_stream_eq_slice (data : Bytes) (cap : Nat) (sched : List Step) (hcap : 0 < cap) (hw : WfSched sched) :
+theorem C07_stream_eq_slice (data : Bytes) (cap : Nat) (sched : List Step) (hcap : 0 < cap) (hw : WfSched sched)
+    (hnf : NoFaults sched) :
     ((streamTokens cap sched data).out = .err .full ∧
       (streamTokens cap sched data).toks <+: (sliceTokens data).toks ∧ cap ≤ data.length) ∨
     ((streamTokens cap sched data).toks = (sliceTokens data).toks ∧
@@ -254,8 +259,13 @@ theorem C07_stream_eq_slice (data : Bytes) (cap : Nat) (sched : List Step) (hcap
   obtain ⟨h1, h2⟩ := C07_start_related cap sched data hcap hw
   have := lexAll_vs_slice (fuelFor data) _ _ 0 .unknown data (fuelFor data + 2 * sched.length) (fuelFor data) []
     (Or.inl h1) (Or.inl h2) rfl (by simp [fuelFor]; omega) (by simp [fuelFor])
-  rcases this with ⟨a, b, _, c⟩ | this
-  · left; exact ⟨a, b, c⟩
+  rcases this with ⟨a, b, c⟩ | this
+  · left
+    have hfull : (streamTokens cap sched data).out = .err .full := by
+      rcases a with a | a
+      · exact a
+      · exact absurd a (lexAll_no_io cap sched data _ _ hnf)
+    exact ⟨hfull, b, c hfull⟩
   · right; simpa [streamTokens, sliceTokens] using this
 
 example : (streamTokens 64 [.give 1, .give 1, .give 3, .repeat_ 2]
@@ -266,11 +276,12 @@ example : (streamTokens 64 [.give 1, .give 1, .give 3, .repeat_ 2]
 outcome), the streamed run ended in the error `BufferFull` and its tokens are a prefix of the from-slice tokens — data
 is never silently dropped, split into several tokens, or reported as a clean end of input. -/
 theorem C07_overflow_is_error (data : Bytes) (cap : Nat) (sched : List Step) (hcap : 0 < cap) (hw : WfSched sched)
+    (hnf : NoFaults sched)
     (hdiff : (streamTokens cap sched data).toks ≠ (sliceTokens data).toks ∨
              (streamTokens cap sched data).out ≠ (sliceTokens data).out) :
     (streamTokens cap sched data).out = .err .full ∧
     (streamTokens cap sched data).toks <+: (sliceTokens data).toks := by
-  rcases C07_stream_eq_slice data cap sched hcap hw with ⟨a, b, _⟩ | ⟨a, b, _⟩
+  rcases C07_stream_eq_slice data cap sched hcap hw hnf with ⟨a, b, _⟩ | ⟨a, b, _⟩
   · exact ⟨a, b⟩
   · rcases hdiff with h | h
     · exact absurd a h
@@ -282,29 +293,30 @@ example : (streamTokens 4 [] [97, 98, 99, 100, 101, 102, 32]).out ≠ (sliceToke
 
 /-- a buffer larger than the input never overflows: for every schedule the streamed result IS the from-slice result. -/
 theorem C07_stream_eq_slice_large_buffer (data : Bytes) (cap : Nat) (sched : List Step)
-    (hcap : data.length < cap) (hw : WfSched sched) :
+    (hcap : data.length < cap) (hw : WfSched sched) (hnf : NoFaults sched) :
     (streamTokens cap sched data).toks = (sliceTokens data).toks ∧
     (streamTokens cap sched data).out = (sliceTokens data).out ∧
     ((streamTokens cap sched data).out = .end_ →
       (streamTokens cap sched data).final.position = data.length ∧ (sliceTokens data).final.position = data.length) := by
-  rcases C07_stream_eq_slice data cap sched (by omega) hw with ⟨_, _, c⟩ | h
+  rcases C07_stream_eq_slice data cap sched (by omega) hw hnf with ⟨_, _, c⟩ | h
   · omega
   · exact h
 
 /-- two different schedules and two different (large enough) buffer sizes agree with each other. -/
 theorem C07_two_schedules_agree (data : Bytes) (cap1 cap2 : Nat) (sched1 sched2 : List Step)
-    (h1 : data.length < cap1) (h2 : data.length < cap2) (hw1 : WfSched sched1) (hw2 : WfSched sched2) :
+    (h1 : data.length < cap1) (h2 : data.length < cap2) (hw1 : WfSched sched1) (hw2 : WfSched sched2)
+    (hn1 : NoFaults sched1) (hn2 : NoFaults sched2) :
     (streamTokens cap1 sched1 data).toks = (streamTokens cap2 sched2 data).toks ∧
     (streamTokens cap1 sched1 data).out = (streamTokens cap2 sched2 data).out := by
-  have a := C07_stream_eq_slice_large_buffer data cap1 sched1 h1 hw1
-  have b := C07_stream_eq_slice_large_buffer data cap2 sched2 h2 hw2
+  have a := C07_stream_eq_slice_large_buffer data cap1 sched1 h1 hw1 hn1
+  have b := C07_stream_eq_slice_large_buffer data cap2 sched2 h2 hw2 hn2
   exact ⟨a.1.trans b.1.symm, a.2.1.trans b.2.1.symm⟩
 
 /-
 Not proved; statement kept as the obligation (exercised on the real code by the L3 oracle `full-although-fits` of
 harness/src/props/c07.rs, which computes `need` with an independent byte-at-a-time lexer):
 
-theorem C07_full_only_if_unfit (data cap sched) (hfit : need data ≤ cap) (hw : WfSched sched) :
+theorem C07_full_only_if_unfit (data cap sched) (hfit : need data ≤ cap) (hw : WfSched sched) (hnf : NoFaults sched) :
     (streamTokens cap sched data).out ≠ .err .full
   -- `need data` = the largest of: comment length + 1, unquoted length + 1, quoted content length + 1, `@[..]` length,
   -- 2 for an operator, min (|data| + 1) 3 if the input starts with 0xEF.
